@@ -371,6 +371,9 @@ func c02Bounds(c *Ctx, r *Report) []*panicSite {
 		env = append(env, e)
 	}
 	cmd.Env = append(env, "GOFLAGS=-mod=readonly", "GOWORK=off", "GOPROXY=off", "GOSUMDB=off", "GOTOOLCHAIN=local", "GOCACHE="+cache, "CGO_ENABLED=0")
+	if goos, goarch := os.Getenv("ZLV_GOOS"), os.Getenv("ZLV_GOARCH"); goos != "" && goarch != "" {
+		cmd.Env = append(cmd.Env, "GOOS="+goos, "GOARCH="+goarch)
+	}
 	var stderr bytes.Buffer
 	cmd.Stderr = &stderr
 	cmd.Stdout = &stderr
